@@ -110,6 +110,10 @@ func checkBody(c Cfg, key, name, firstRcpt string) string {
 			continue
 		}
 		fail = append(fail, st)
+		if v == "rq" || v == "rqp" {
+			fmt.Fprintf(&sb, "%s_raw %s\n", st, v) // raw Reject && Quarantine result
+			continue
+		}
 		fmt.Fprintf(&sb, "%s_action %s\n", st, actionWord[v])
 	}
 	if len(fail) > 0 {
